@@ -84,6 +84,16 @@ def queries(V):
         ("Scalar(x,m)+Scalar(y,s)", lambda: (Scalar(x, "m") + Scalar(y, "s")).GetValue()),
         ("db.GetQuantityTypes/units/categories", lambda: (db().GetQuantityTypes(), sorted(db().unit_to_unit_info), sorted(db().IterCategories()))),
         ("FractionScalar(x,m,depth).IsValid", lambda: FractionScalar(x, "m", "depth").IsValid()),
+        # arithmetic that matches the same unit pair under different exponents
+        ("m * (cm*cm)", lambda: (lambda r: (r.GetValue(), r.GetUnit()))(Scalar(x, "m") * (Scalar(y, "cm") * Scalar(1.0, "cm")))),
+        ("m * (cm*cm*cm)", lambda: (lambda r: (r.GetValue(), r.GetUnit()))(Scalar(x, "m") * (Scalar(y, "cm") * Scalar(1.0, "cm") * Scalar(1.0, "cm")))),
+        ("(m*m*m) + (cm*cm*cm)", lambda: (lambda r: (r.GetValue(), r.GetUnit()))((Scalar(x, "m") * Scalar(1.0, "m") * Scalar(1.0, "m")) + (Scalar(y, "cm") * Scalar(1.0, "cm") * Scalar(1.0, "cm")))),
+        ("Array m / (cm*cm)", lambda: (lambda r: (list(r.GetValues()), r.GetUnit()))(Array([x, y], "m") / (Array([y, x], "cm") * Array([1.0, 1.0], "cm")))),
+        ("(cm*cm) - (m*m)", lambda: (lambda r: (r.GetValue(), r.GetUnit()))((Scalar(x, "cm") * Scalar(1.0, "cm")) - (Scalar(y, "m") * Scalar(1.0, "m")))),
+        # a unit whose declared default category may or may not be registered yet
+        ("Scalar(x,in) category-less", lambda: (lambda s: (s.GetCategory(), s.IsValid(), list(s.GetValidUnits()), s.GetValue("m")))(Scalar(x, "in"))),
+        ("ObtainQuantity(in) / GetDefaultCategory(in)", lambda: (ObtainQuantity("in").GetCategory(), db().GetDefaultCategory("in"))),
+        ("Array([x],in).IsValid", lambda: (lambda a: (a.IsValid(), a.GetCategory()))(Array([x], "in"))),
     ]
     return Q
 
@@ -100,10 +110,12 @@ def registrations(V):
         ("AddCategory(depth,override,valid=[m])", lambda db: db.AddCategory("depth", "length", override=True, valid_units=["m"])),
         ("AddCategory(depth) [rejected: exists]", lambda db: db.AddCategory("depth", "length")),
         ("AddCategory(width,override -> time)", lambda db: db.AddCategory("width", "time", override=True)),
+        ("AddUnit(length,in,default_category=pipe diameter)", lambda db: db.AddUnit("length", "inches", "in", lambda x: x * 39.37, lambda x: x / 39.37, default_category="pipe diameter")),
+        ("AddCategory(pipe diameter,min=0)", lambda db: db.AddCategory("pipe diameter", "length", valid_units=["in", "cm"], min_value=0.0, default_unit="in")),
     ]
 
 
-NQ, NR = 30, 9
+NQ, NR = 38, 11
 
 
 def items(tier, seed):
@@ -113,6 +125,15 @@ def items(tier, seed):
         allq = [(a, b, r) for a in range(NQ) for b in range(NQ) for r in range(NR)]
         out += [{"qs": [a, b], "rs": [r]} for a, b, r in allq]
         out += [{"qs": [rng.randrange(NQ)], "rs": [rng.randrange(NR), rng.randrange(NR)]} for _ in range(4000)]
+    # two registrations in a row with the whole battery asked in between (a unit's default category registered before / after the unit)
+    for pair in ((9, 10), (10, 9), (0, 1), (4, 6)):
+        for q in (35, 36, 30, 8):
+            out.append({"qs": [q], "rs": list(pair)})
+    # two arithmetic queries in a row before the battery
+    for a in range(30, 35):
+        for b in range(30, 35):
+            if a != b:
+                out.append({"qs": [a, b], "rs": [5]})
     out.append({"qs": [0], "rs": [0], "canary": True})
     rng.shuffle(out)
     return out
@@ -129,7 +150,7 @@ def _outcome(fn):
         return ("ok", fn())
     except (core.Abort, core.HarnessError, core.Infeasible):
         raise
-    except (UnitsError, ValueError, TypeError, AssertionError, KeyError, RuntimeError, IndexError) as e:
+    except (UnitsError, ValueError, TypeError, AssertionError, KeyError, RuntimeError, IndexError, ZeroDivisionError) as e:
         return ("raised", type(e).__name__)
 
 
@@ -161,11 +182,13 @@ def run(cfg, V):
             s0 = snap_registry(warm)
             _outcome(Q[qi][1])
             log["pure"].append((Q[qi][0], snap_registry(warm) == s0))
+    accepted = []
     for n, ri in enumerate(cfg["rs"]):
         name, reg = regs[ri]
         s0 = snap_registry(warm)
         o = _outcome(lambda: reg(warm))
         if o[0] == "ok":
+            accepted.append(reg)
             of = _outcome(lambda: reg(fresh))
             log.setdefault("reg", []).append((name, "accepted", of[0] == "ok"))
         else:
@@ -178,8 +201,16 @@ def run(cfg, V):
                 ans_w.append(_outcome(qf))
                 if snap_registry(warm) != s1:
                     log["pure"].append((qn + " (battery)", False))
-        with pushed(fresh):
-            ans_f = [_outcome(qf) for _qn, qf in queries(V)]
+        # the reference answer of every query comes from its OWN brand-new database (same registrations, no other history at all)
+        ans_f = []
+        for qi in range(len(Qw)):
+            one = _pre()
+            for r_ in accepted:
+                r_(one)
+            Quantity._EMPTY_QUANTITY = None
+            with pushed(one):
+                ans_f.append(_outcome(queries(V)[qi][1]))
+        Quantity._EMPTY_QUANTITY = None
         log["battery"].append([(Qw[i][0], ans_w[i], ans_f[i]) for i in range(len(Qw))])
         log["registry_equal"] = snap_strip(snap_registry(warm)) == snap_strip(snap_registry(fresh))
     return log
